@@ -19,6 +19,7 @@ import (
 //   {"k":"obj","caps":[...],"strv","gov","errv","h","w"}   pointer to a generated type
 //        whose method set is exactly caps ⊆ {String,GoString,Error,Height,Width}
 //   {"k":"cell","inner":Item}      a tabular.Cell value holding inner
+//   {"k":"cellptr","inner":Item}   a *tabular.Cell pointing at a cell holding inner
 //   {"k":"other","which":name}     a value from the fixed pool below
 //
 // The driver augments each descriptor in place (so the trace carries it):
@@ -153,6 +154,10 @@ func (w *world) mkItem(d M) interface{} {
 	case "cell":
 		inner := w.mkItem(opMap(d, "inner"))
 		x = tabular.NewCell(inner)
+	case "cellptr":
+		inner := w.mkItem(opMap(d, "inner"))
+		c := tabular.NewCell(inner)
+		x = &c
 	case "other":
 		x = otherValue(opStr(d, "which"))
 	default:
@@ -273,7 +278,7 @@ func augmentItem(d M, x interface{}) {
 		tx["fmtv"] = linesWidths(f)
 	}
 	d["tx"] = tx
-	if d["k"] != "cell" {
+	if d["k"] != "cell" && d["k"] != "cellptr" {
 		b, err := json.Marshal(x)
 		if err != nil {
 			d["enc"] = "!ERR"
